@@ -181,6 +181,13 @@ func corruptFile(path string, kind string) {
 	if err != nil {
 		return
 	}
+	if kind == "dirAtKey" {
+		// a non-empty directory where the entry file belongs
+		must(os.Remove(path))
+		must(os.MkdirAll(path, 0755))
+		must(os.WriteFile(filepath.Join(path, "occupied"), []byte("x"), 0644))
+		return
+	}
 	var c map[string]json.RawMessage
 	_ = json.Unmarshal(b, &c)
 	write := func(x []byte) { must(os.WriteFile(path, x, 0600)) }
